@@ -3,6 +3,8 @@ minimised past disagreements."""
 
 CORPUS = {
     "C07": [
+        # two threads blocked in lock() when the holder releases: either of them may take the mutex next
+        "cfg m=1 x=2 | T0: lock 0; spawn 1; spawn 2; ld 0 rlx; unlock 0; join 1; join 2 | T1: fadd 0 1 rlx; lock 0; fadd 1 1 rlx; unlock 0 | T2: fadd 0 1 rlx; lock 0; fadd 1 1 rlx; unlock 0",
         # a reader that holds its guard while waiting for another reader (pending at read() when the first acquires):
         # readers coexist, no deadlock; also after a completed write section
         "cfg l=1 | T0: spawn 1; rd 0; join 1; unrd 0 | T1: rd 0; unrd 0",
@@ -98,6 +100,9 @@ CORPUS = {
         "cfg | T0: anew 0; aclone 0 1; spawn 1; acount 0; ifeq 1 v:1 1; tnew 0; join 1; adrop 0 | T1: adrop 1",
     ],
     "C11": [
+        # the final drop happens-after EVERY earlier drop (three handles, two writers that are never joined before)
+        "cfg c=2 | T0: anew 0; aclone 0 1; aclone 0 2; spawn 1; spawn 2; adrop 0; ifeq 1 v:1 2; crd 0; crd 1; join 1; join 2 | T1: cwr 0 5; adrop 1 | T2: cwr 1 6; adrop 2",
+        "cfg c=2 | T0: anew 0; aclone 0 1; aclone 0 2; spawn 1; spawn 2; join 1; join 2 | T1: cwr 0 5; adrop 1; adrop 0; ifeq 1 v:1 1; crd 1 | T2: cwr 1 6; adrop 2",
         # an inspection racing with a drop after an earlier, ordered drop of another handle
         "cfg  | T0: anew 0; aclone 0 1; aclone 0 2; adrop 2; spawn 1; spawn 2; join 1; join 2; adrop 0 | T1: acount 0 | T2: adrop 1",
         "cfg  | T0: anew 0; aclone 0 1; aclone 0 2; adrop 2; spawn 1; spawn 2; join 1; join 2; adrop 0 | T1: adrop 1 | T2: acount 0",
@@ -105,6 +110,9 @@ CORPUS = {
         "cfg  | T0: anew 0; aclone 0 1; spawn 1; spawn 2; join 1; join 2; adrop 0 | T1: acount 0 | T2: adrop 1",
     ],
     "C15": [
+        # two runnable threads at the very first schedule point (spawn before the first loom operation); matters at bound 0
+        "cfg x=2 | T0: spawn 1; st 1 1 rlx; st 0 1 rlx; join 1; ld 0 rlx | T1: st 0 2 rlx; ld 0 rlx",
+        "cfg x=2 | T0: spawn 1; spawn 2; st 1 1 rlx; fadd 0 1 rlx; join 1; join 2 | T1: fadd 0 1 rlx | T2: fadd 0 1 rlx",
         # a load / RMW directly followed by a possibly spurious Notify::wait, with preemptions before and after
         "cfg x=1 n=1 m=1 c=1 | T0: spawn 1; lock 0; crd 0; unlock 0; nnotify 0; ld 0 rlx; ifeq 1 v:0 1; nwait 0; lock 0; crd 0; unlock 0; join 1 | T1: lock 0; cwr 0 1; unlock 0; lock 0; cwr 0 2; unlock 0; lock 0; cwr 0 3; unlock 0",
         "cfg x=1 n=1 | T0: spawn 1; ld 0 rlx; nwait 0; ld 0 rlx; fadd 0 1 rlx; join 1 | T1: st 0 1 rlx; nnotify 0; fadd 0 1 rlx; fadd 0 1 rlx",
@@ -219,6 +227,10 @@ CORPUS = {
         "cfg x=1 | T0: spawn 1; st 0 1 rlx; st 0 2 rlx; join 1 | T1: fupd 0 addiflt:1:0 rlx rlx; ld 0 rlx",
     ],
     "C01": [
+        # a condvar notification sent while nobody waits yet races with a later wait: "wait first, woken by that early
+        # notification" must be explored (the waiter returns with the predicate still false)
+        "cfg m=1 v=1 c=1 | T0: spawn 1; cvone 0; lock 0; cwr 0 1; unlock 0; cvone 0; join 1 | T1: lock 0; crd 0; ifeq 1 v:0 1; cvwait 0 0; crd 0; unlock 0",
+        "cfg m=1 v=1 c=1 | T0: spawn 1; cvall 0; lock 0; cwr 0 1; unlock 0; cvall 0; join 1 | T1: lock 0; crd 0; ifeq 1 v:0 1; cvwait 0 0; crd 0; unlock 0",
         # strong_count must observe a concurrent drop (F10a, repaired)
         "cfg  | T0: anew 0; aclone 0 1; spawn 1; acount 0; adrop 0; join 1 | T1: adrop 1",
         # a racing thread that is blocked at the backtrack point: all enabled threads must become alternatives
